@@ -37,7 +37,7 @@ func H_C18_dbhash() {
 	if L <= 17 {
 		seed = vU32("seed")
 	}
-	db := &DB{hashSeed: seed}
+	db := &DB{hashSeed: seed, opts: &Options{}, index: &index{numBuckets: 1}, datalog: &datalog{}, metrics: &Metrics{}}
 	vAssert(db.hash(key) == refMurmur3(key, seed), "C18.dbhash.slot-hash-is-murmur3-of-the-whole-key")
 	vCover("C18.dbhash.done")
 }
